@@ -71,6 +71,17 @@ def table : List (String × Row) := [
   ("rlwe.MemEvaluationKeySet.ShallowCopy", [("GaloisKeys", .sharedRO), ("RelinearizationKey", .sharedRO)]),
   ("ring.BasisExtender.ShallowCopy", [("buffP", .owned), ("buffQ", .owned), ("constantsPtoQ", .sharedRO), ("constantsQtoP", .sharedRO), ("modDownConstantsPtoQ", .sharedRO), ("modDownConstantsQtoP", .sharedRO), ("ringP", .sharedRO), ("ringQ", .sharedRO)]),
   ("ring.Ring.AtLevel", [("ModulusAtLevel", .sharedRO), ("RescaleConstants", .sharedRO), ("SubRings", .sharedRO), ("level", .configChanged)]),
+  -- ring-level views and siblings (ring/ring.go): the sibling ring of a ring — also of a VIEW taken AtLevel(l) — has fresh
+  -- SubRings (other degree, other NTT), shares the RNS constants and KEEPS the level of the receiver (`config`)
+  ("ring.Ring.AtLevel[view-of-view]", [("ModulusAtLevel", .sharedRO), ("RescaleConstants", .sharedRO), ("SubRings", .sharedRO), ("level", .configChanged)]),
+  ("ring.Ring.ConjugateInvariantRing", [("ModulusAtLevel", .sharedRO), ("RescaleConstants", .sharedRO), ("SubRings", .replaced), ("level", .config)]),
+  ("ring.Ring.ConjugateInvariantRing[AtLevel(1)]", [("ModulusAtLevel", .sharedRO), ("RescaleConstants", .sharedRO), ("SubRings", .replaced), ("level", .config)]),
+  ("ring.Ring.StandardRing[of-CI]", [("ModulusAtLevel", .sharedRO), ("RescaleConstants", .sharedRO), ("SubRings", .replaced), ("level", .config)]),
+  ("ring.Ring.StandardRing[of-CI][AtLevel(1)]", [("ModulusAtLevel", .sharedRO), ("RescaleConstants", .sharedRO), ("SubRings", .replaced), ("level", .config)]),
+  ("ring.Ring.StandardRing[identity]", [("ModulusAtLevel", .sharedRO), ("RescaleConstants", .sharedRO), ("SubRings", .sharedRO), ("level", .config)]),
+  ("ring.Ring.StandardRing[identity][AtLevel(1)]", [("ModulusAtLevel", .sharedRO), ("RescaleConstants", .sharedRO), ("SubRings", .sharedRO), ("level", .config)]),
+  ("ring.Ring.ConjugateInvariantRing[identity]", [("ModulusAtLevel", .sharedRO), ("RescaleConstants", .sharedRO), ("SubRings", .sharedRO), ("level", .config)]),
+  ("ring.Ring.ConjugateInvariantRing[identity][AtLevel(1)]", [("ModulusAtLevel", .sharedRO), ("RescaleConstants", .sharedRO), ("SubRings", .sharedRO), ("level", .config)]),
   ("ring.UniformSampler.AtLevel", [("baseSampler", .nested), ("randomBuffer", .sharedScratch)]),
   ("ring.UniformSampler.WithPRNG", [("baseSampler", .nested), ("randomBuffer", .owned)]),
   ("ring.GaussianSampler.AtLevel", [("baseSampler", .nested), ("montgomery", .config), ("randomBuffer", .sharedScratch), ("xe", .config)]),
